@@ -52,6 +52,7 @@ Definition check_pol (prop : Z) (inp impl : sx) : sx :=
           let cls := 1 + 2 * Z.min 15 (Z.of_nat (length ops)) in
           if (prop =? 18) && negb (cache_spec [] ops res) then verdict V_SPECFAIL cls [18; 2] (L [])
           else if (prop =? 18) && negb (cache_norequery [] ops res) then verdict V_SPECFAIL cls [18; 5] (L [])
+          else if (prop =? 18) && negb (cache_expiry dflt [] ops res) then verdict V_SPECFAIL cls [18; 6] (L [])
           else if list_eqb cres_eqb (run_cache dflt [] ops) res then verdict V_OK cls [] (L [])
           else verdict V_DIVERGE cls [] (L [])
       | _, _ => badcase
@@ -67,6 +68,7 @@ Definition check_pol (prop : Z) (inp impl : sx) : sx :=
              a shorter lifetime would make "stored until expiry" vacuous *)
           else if (prop =? 18) && negb (cache_norequery [] (map (fun o => mkCop (op_now o) (op_key o) (op_cb o) reversedns_reverseDnsDefaultTimeout) ops0) res)
                then verdict V_SPECFAIL cls [18; 5] (L [])
+          else if (prop =? 18) && negb (cache_expiry 0 [] ops res) then verdict V_SPECFAIL cls [18; 6] (L [])
           else if list_eqb cres_eqb (run_cache 0 [] ops) res then verdict V_OK cls [] (L [])
           else verdict V_DIVERGE cls [] (L [])
       | _, _ => badcase
@@ -81,6 +83,7 @@ Definition check_pol (prop : Z) (inp impl : sx) : sx :=
           if (prop =? 18) && negb (cache_spec [] ops res) then verdict V_SPECFAIL cls [18; 2] (L [])
           else if (prop =? 18) && negb (cache_norequery [] (map (fun o => mkCop (op_now o) (op_key o) (op_cb o) publicip_ipCheckerCallTimeout) ops0) res)
                then verdict V_SPECFAIL cls [18; 5] (L [])
+          else if (prop =? 18) && negb (cache_expiry 0 [] ops res) then verdict V_SPECFAIL cls [18; 6] (L [])
           else if list_eqb cres_eqb (run_cache 0 [] ops) res then verdict V_OK cls [] (L [])
           else verdict V_DIVERGE cls [] (L [])
       | _, _ => badcase
